@@ -317,6 +317,10 @@ class Ctx:
         self.violations.append((key, detail, path))
         return True
 
+    def fail(self, msg):
+        """No verdict (exit 2): infrastructure / model problem, never a violation."""
+        raise NoVerdict(msg)
+
     def sample(self, x):
         if len(self.cov["samples"]) < 5:
             self.cov["samples"].append(x)
@@ -358,10 +362,19 @@ def _key_match(pattern, key):
 
 
 def _load_known():
-    p = os.path.join(VERIF, "KNOWN_FINDINGS.json")
-    if not os.path.exists(p):
-        return []
-    return json.load(open(p)).get("findings", [])
+    """KNOWN_FINDINGS.json is the committed list; known/<ID>.json fragments are merged into it by bin/mkmanifest
+    (fragments are also read directly so that a check under construction sees its own entries)."""
+    res, seen = [], set()
+    files = [os.path.join(VERIF, "KNOWN_FINDINGS.json")] + sorted(glob.glob(os.path.join(VERIF, "known", "C*.json")))
+    for p in files:
+        if not os.path.exists(p):
+            continue
+        for k in json.load(open(p)).get("findings", []):
+            ident = (k.get("property"), k.get("key"), k.get("status"))
+            if ident not in seen:
+                seen.add(ident)
+                res.append(k)
+    return res
 
 
 def main(argv):
